@@ -9,7 +9,7 @@
 """
 import ast
 
-from ..report import Result, Finding
+from ..report import Result, Finding, Clause
 from ..loader import walk_own, norm, AnalysisError
 from ..predeval import eval_pred, Undecidable, Rec
 
@@ -109,6 +109,27 @@ class DayAbs(object):
 
 def run(ctx):
     res = Result('C16')
+    repo = ctx.repo
+    # the statelessness clause first: when the window lives in shared state the shape rules below have nothing to bind to
+    from . import common
+    cas0, fac0 = repo.cls('S3TapeCassette'), repo.cls('S3BasicFacade')
+    cg = Clause('C16.g', 'R-PROV', 'time-window lookup keeps no state on the cassette or the facade', floor=2)
+    common.stateless_methods_clause(res, cg, 'C16', 'C16.g', cas0, ['iter_recording_ids', 'iter_recordings_metadata'],
+                                    'every lookup has its own window, evaluated against the clock and the bucket at that time')
+    common.stateless_methods_clause(res, cg, 'C16', 'C16.g', fac0, ['iter_keys'],
+                                    'the bounds of a listing belong to that listing alone (listings are lazy and may be consumed interleaved)')
+    try:
+        _run_rest(ctx, res)
+    except AnalysisError as ex:
+        if not res.findings:
+            raise
+        res.not_decided.append('remaining clauses not bound on this tree (%s); the violation above stands on its own' % ex)
+        res.clauses = [c for c in res.clauses if c.obligations >= c.floor]
+    res.clauses.append(cg)
+    return res
+
+
+def _run_rest(ctx, res):
     repo = ctx.repo
     res.explanation = (
         'Decides the two mechanisms of the time-window lookup: the enumeration of day folders is interpreted over the domain '
@@ -262,6 +283,24 @@ def run(ctx):
     ik = fac.lookup('iter_keys')
     if ik is None:
         raise AnalysisError('anchor-lost method=S3BasicFacade.iter_keys')
+    # the listing visits every object of the prefix: only the limit may end it early (bucket listings are in key order, not in time order)
+    from . import common as _common
+    limit_names = {p for p in ik.params if 'limit' in p}
+    counters = {n.target.id for n in ast.walk(ik.node) if isinstance(n, ast.AugAssign) and isinstance(n.target, ast.Name)}
+    early = _common.guards_of(ik.node, lambda x: isinstance(x, (ast.Break, ast.Return)))
+    bad_early = []
+    for st, conds in early:
+        lits = [l for t, pol in conds for l in _common.split_literals(t, pol)]
+        for t, pol in lits:
+            names = {x.id for x in ast.walk(t) if isinstance(x, ast.Name)}
+            if not (names & (limit_names | counters)) or any(isinstance(x, ast.Attribute) and x.attr == 'last_modified' for x in ast.walk(t)):
+                bad_early.append((st, t))
+    cc.instance('the listing loop ends early only on the limit (%d early exits)' % len(early), ik.qualname, not bad_early)
+    cc.evaluations += len(early)
+    for st, t in bad_early[:1]:
+        res.add(Finding('C16', 'C16.c', 'R-DECISION', ik.file, ik.qualname, st.lineno, norm(t),
+                        'the listing stops early under `%s`: objects of a prefix are listed in key order, not in time order, so objects inside the '
+                        'window that are listed later are missed' % norm(t)))
     lambdas = [n for n in ast.walk(ik.node) if isinstance(n, ast.Lambda)]
     date_l = [l for l in lambdas if any(isinstance(x, ast.Attribute) and x.attr == 'last_modified' for x in ast.walk(l))]
     okp = len(date_l) >= 1
